@@ -265,6 +265,27 @@ PROPS["C11"] = dict(
     floor=dict(quick=2500, thorough=40000),
 )
 
+PROPS["C18"] = dict(
+    level="exploration",
+    technique="rapidcheck round-trip and differential testing of the key encoders/decoders and the PEM codec against OpenSSL's encoders, a harness Base64/PEM reference and grammar-generated multi-object files; public-key decoder compared with the certificate decoder on OpenSSL-made certificates",
+    rule=("case kinds: RSA private key (pool keys 512..4096, both factor orders, generated leading zeros on every field of the input structures; raw "
+          "and PKCS#8; length query vs written with canary; byte-equal to OpenSSL; decode(encode) field by field, chunked), EC private key "
+          "(P-256/384/521; scalar 1, n-1, short, leading-zero; with/without public key; fixed / minimal / zero-extended private-key length), PEM "
+          "round trip (payload 0..2000, four flag combinations, banners 0..130, in-place overlap; equal to the reference and to OpenSSL's writer), "
+          "PEM grammar (1..4 objects, LF/CRLF mixed, junk and blank lines, whitespace, malformed objects with a bad character or data after "
+          "padding, truncated last object), public keys (RSA / EC SubjectPublicKeyInfo and raw RSAPublicKey vs the certificate decoder). "
+          "non-trivial = payload longer than one line, key with leading-zero/high-bit component, or malformed PEM with >= 1 valid line before the "
+          "defect / multi-object file; distinct = (codec, key/payload class, flags, defect class)"),
+    assumptions=["OpenSSL 3.0 encoders are correct", "OpenSSL always includes the public key in PKCS#8 EC keys: the no-public-key PKCS#8 form is only round-tripped",
+                 "known findings F2 (EC point prefix) and F3 (raw RSAPublicKey) are compared modulo the listed difference and counted as excluded"],
+    targets=[dict(name="c18_codec", src="c18_codec.cpp", flavour="san", libs=["-lcrypto", "-lgmp"])],
+    quick=[("c18_codec", "enum", dict(shards=8)),
+           ("c18_codec", "rc", dict(cases=48000, shards=16))],
+    thorough=[("c18_codec", "enum", dict(shards=16)),
+              ("c18_codec", "rc", dict(cases=1600000, shards=16))],
+    floor=dict(quick=4000, thorough=40000),
+)
+
 # ---------------------------------------------------------------- manifest text
 HOOK_COMMITS = ["b37444c", "e1637c5"]
 NOT_APPLICABLE = {}
@@ -390,4 +411,13 @@ MANIFEST_TEXT["C11"] = dict(
           "RFC 6979 value and cross-verified, and verification verdicts equal to OpenSSL's on mutated signatures, hashes and keys."),
     design_ref="DESIGN.md section 4, C11",
     note="trusts OpenSSL; negative cases are one generated mutation per case",
+)
+
+MANIFEST_TEXT["C18"] = dict(
+    text=("Round-trip plus differential testing: every private-key encoder output must be byte-identical to OpenSSL's and decode back field by "
+          "field; announced lengths equal written lengths (canaries); PEM encode is compared with an independent reference and OpenSSL's writer "
+          "and inverted by the decoder under arbitrary chunking; grammar-generated PEM files check object order, names, error signalling and that "
+          "nothing spurious is emitted around a malformed object; the port's public-key decoder is compared with the certificate decoder."),
+    design_ref="DESIGN.md section 4, C18",
+    note="two known findings in br_pkey_decoder (F2, F3) are listed in known_findings.txt and reported as KNOWN-FINDING",
 )
